@@ -22,6 +22,7 @@ Abstract syntax (JSON-able lists):
   ["new", obj, behavior|None] ["monitor", name] ["termwhen", k] ["termsimwhen", k]
   ["termafter", n, unit] ["ltl", formula] ["record", name, k] ["recordinitial", name, k]
   ["recordfinal", name, k] ["require", k] ["override", obj, prop, value] ["ev", label]
+  ["rawrequire", scenic expression]  (top-level setup only: requirement on the initial scene)
 
  unit: "steps" | "seconds";  for seconds n is a decimal string and the program's
  timestep is a decimal string, so the documented step count n/timestep is exact.
@@ -179,6 +180,8 @@ def render_setup(stmts, ind, out, objpos):
             out.append(f"{pad}record prop({s[2]!r}, {s[3]!r}) as {s[1]}")
         elif op == "fault":
             out.append(f"{pad}fault({s[1]!r})")
+        elif op == "rawrequire":
+            out.append(f"{pad}require {s[1]}")
         elif op == "ev":
             out.append(f"{pad}ev({s[1]!r})")
         else:
@@ -691,7 +694,9 @@ class Ref:
             self.do_override(S, st[1], st[2], st[3])
         elif op == "recordprop":
             S.records.append((st[1], ("prop", st[2], st[3])))
-        elif op == "fault":
+        elif op in ("fault", "rawrequire"):
+            # rawrequire: a requirement on the initial scene only (top-level setup); it
+            # decides which scenes are generated and plays no part in the simulation
             pass
         elif op == "ev":
             self.emit("ev", st[1])
